@@ -805,6 +805,10 @@ func mon07Case(w *vlog.W, a *wargs, id int, rng *rand.Rand, opts harness.Options
 				txs2 = append(txs2, tx)
 				continue
 			}
+			if tx.GetFrom() == nil {
+				usable = false // no sender at all: nothing to build a null failure from
+				break
+			}
 			if et, isEth := tx.(*ethkittypes.EthTransaction); isEth {
 				// null failure of an Ethereum-format sender: same nonce, no gas - rejected before anything is bought
 				var ek *ecdsa.PrivateKey
